@@ -584,8 +584,22 @@ func (ga *guardAnalysis) exclusiveTie(i, j int, e ast.Expr) (tie, bool) {
 		return tie{}, false
 	}
 	l := ga.c.leaves[i]
-	for k, other := range ga.ca.exprs {
-		if k == j {
+	// the comparisons of the same value with other constants anywhere in the function (the other arms of a switch)
+	others := append([]ast.Expr{}, ga.ca.exprs...)
+	for _, b := range ga.g.Blocks {
+		if len(b.Succs) == 2 {
+			if c := ga.g.edgeCond(b, 0); c != nil {
+				ast.Inspect(c.E, func(n ast.Node) bool {
+					if be, ok := n.(*ast.BinaryExpr); ok && be.Op == token.EQL {
+						others = append(others, be)
+					}
+					return true
+				})
+			}
+		}
+	}
+	for k, other := range others {
+		if k == j && k < len(ga.ca.exprs) {
 			continue
 		}
 		x2, c2, ok := eqConst(f, other)
